@@ -72,6 +72,16 @@ def sha(s, n=12):
 class Scratch:
     def __init__(self, name):
         os.makedirs(SCRATCH_ROOT, exist_ok=True)
+        # a run that was killed (timeout of the caller, lost shell) cannot clean up after itself:
+        # remove scratch directories that nobody has touched for a long time
+        try:
+            now = time.time()
+            for e in os.listdir(SCRATCH_ROOT):
+                q = os.path.join(SCRATCH_ROOT, e)
+                if now - os.path.getmtime(q) > 6 * 3600:
+                    shutil.rmtree(q, ignore_errors=True)
+        except OSError:
+            pass
         self.dir = tempfile.mkdtemp(prefix=name + "-", dir=SCRATCH_ROOT)
 
     def sub(self, name):
